@@ -193,3 +193,58 @@ Proof.
       eapply perm_trans; [apply perm_swap|]. apply perm_skip. apply perm_swap.
     + split; [discriminate|]. split; [reflexivity|]. vm_compute. discriminate.
 Qed.
+
+(* ------------------------------------------------------------------ *)
+(* copy_pop and the frozen mappings that already exist *)
+From SWH.proofs Require Import FrozenMappingProofs.
+
+Definition rev_args (meta : pyval) : list pyval :=
+  [ VNone; VNone; VNone; VNone; VNone; VAtom (5%N :: bs "RevisionType.GIT"); VAtom (1%N :: bs "dddddddddddddddddddd");
+    VAtom [4%N; 48%N]; meta; VTuple []; VAtom EMPTY_BYTES; VTuple []; VNone ].
+
+(* cell 0: the _data of an already frozen mapping {"extra_headers": ((k, v),), "a": "b"};
+   cell 1: a dict the caller owns *)
+Definition cp_store : store :=
+  [ PyDict [(XH_KEY, VTuple [VTuple [VAtom (1%N :: bs "k"); VAtom (1%N :: bs "v")]]); (Ak "a", A "b")];
+    PyDict [(Ak "x", A "y")] ].
+
+Definition cp_ops : list op :=
+  [ OConstruct Ctor (bs "Revision") (rev_args (VIDict 0));       (* post-init calls copy_pop on the caller's mapping *)
+    OCopyPop (VIDict 0) (Ak "a");                                (* present key *)
+    OCopyPop (VIDict 0) (Ak "absent");
+    OConstruct Ctor IDICT [VIDict 0];                            (* ImmutableDict(idict): shares the cell *)
+    OCopyPop (VIDict 4) (Ak "a");                                (* on the mapping returned by an earlier copy_pop *)
+    OMut (MSetItem 1 (Ak "x") (A "z"));
+    OConstruct Ctor (bs "Revision") (rev_args (VIDict 0)) ].
+
+Lemma frozen_mapping_satisfiable :
+  safe 6 cp_store (op_mut_targets cp_ops) (VIDict 0) = true /\
+  run_ops ex_Hid New 6 cp_store cp_ops <> cp_store /\
+  length (run_ops ex_Hid New 6 cp_store cp_ops) = 7 /\
+  observe ex_Hid ex_Hpy 6 (run_ops ex_Hid New 6 cp_store cp_ops) (VIDict 0) = observe ex_Hid ex_Hpy 6 cp_store (VIDict 0).
+Proof. vm_compute. repeat split; try reflexivity. discriminate. Qed.
+
+(* the mutant copy_pop (new = ImmutableDict(self); new._data.pop(key)): the receiver changes
+   (a) when copy_pop is called on it with a present key,
+   (b) when a Revision is built from an already frozen metadata holding "extra_headers";
+   and two Revisions built one after the other from the same arguments differ.
+   With the current copy_pop none of this happens. *)
+Lemma copy_pop_refuted_inplace :
+  (* (a) *)
+  safe 6 cp_store (op_mut_targets [OCopyPop (VIDict 0) (Ak "a")]) (VIDict 0) = true /\
+  observe ex_Hid ex_Hpy 6 (run_ops ex_Hid PopInPlace 6 cp_store [OCopyPop (VIDict 0) (Ak "a")]) (VIDict 0)
+    <> observe ex_Hid ex_Hpy 6 cp_store (VIDict 0) /\
+  observe ex_Hid ex_Hpy 6 (run_ops ex_Hid New 6 cp_store [OCopyPop (VIDict 0) (Ak "a")]) (VIDict 0)
+    = observe ex_Hid ex_Hpy 6 cp_store (VIDict 0) /\
+  (* (b) *)
+  observe ex_Hid ex_Hpy 6 (run_ops ex_Hid PopInPlace 6 cp_store [OConstruct Ctor (bs "Revision") (rev_args (VIDict 0))]) (VIDict 0)
+    <> observe ex_Hid ex_Hpy 6 cp_store (VIDict 0) /\
+  match run_twins ex_Hid PopInPlace 6 (bs "Revision") cp_store (rev_args (VIDict 0)) (rev_args (VIDict 0)) with
+  | Ok (e12, e21, _, _) => e12 = false /\ e21 = false
+  | Err _ => False
+  end /\
+  match run_twins ex_Hid New 6 (bs "Revision") cp_store (rev_args (VIDict 0)) (rev_args (VIDict 0)) with
+  | Ok (e12, e21, Some k1, Some k2) => e12 = true /\ e21 = true /\ k1 = k2
+  | _ => False
+  end.
+Proof. vm_compute. repeat split; try reflexivity; discriminate. Qed.
